@@ -8,7 +8,8 @@ OUT = None  # --out <prefix>: write <prefix>.seeds.json / <prefix>.mutants.json 
 if "--out" in args:
     i = args.index("--out"); OUT = args[i + 1]; del args[i:i + 2]
 what = args[0] if args else "all"
-only = set(args[1:])  # optional names: re-run just these and merge them into the existing RESULTS.json
+ordered = list(dict.fromkeys(args[1:]))
+only = set(ordered)  # optional names: re-run just these and merge them into the existing RESULTS.json
 
 
 def load(path):
@@ -42,7 +43,10 @@ def run(patch, props, baseline):
 
 if what in ("seeds", "all"):
     res = load(os.path.join(V, "seeded", "RESULTS.json"))
-    for d in sorted(glob.glob(os.path.join(V, "seeded", "C*-*"))):
+    dirs = sorted(glob.glob(os.path.join(V, "seeded", "C*-*")))
+    if only:  # (named seeds are processed in the order given)
+        dirs = [os.path.join(V, "seeded", n) for n in ordered if os.path.isdir(os.path.join(V, "seeded", n))]
+    for d in dirs:
         name = os.path.basename(d)
         if only and name not in only:
             continue
